@@ -205,9 +205,39 @@ def interleave(calls, rng):
     return [queues[k].pop(0) for k in slots]
 
 
+def _plain_values(items):
+    """python values when every item of an IN list is a constant the API would wrap itself (int / str / None)"""
+    out = []
+    for x in items:
+        if x[0] == "vali" and x[2] is None:
+            out.append(int(x[1]))
+        elif x[0] == "vals" and x[2] is None:
+            out.append(x[1])
+        elif x[0] == "null" and x[1] is None:
+            out.append(None)
+        else:
+            return None
+    return out
+
+
 def render(spec, order=None):
     b = Builder(order)
+    orig = tf.build
+
+    def build_with_api_forms(t):
+        # IN lists of plain constants go through Term.isin([...]) / Term.notin([...]) (the form users write) half of the
+        # time; tf.build constructs ContainsCriterion directly.  tf.build recurses through the module global, so nested
+        # terms take this path as well.
+        if t[0] == "in" and t[4] is None and t[2][0] == "tuple" and t[2][2] is None and b.coin():
+            vals = _plain_values(t[2][1])
+            if vals is not None:
+                term = tf.build(t[1])
+                return term.notin(vals) if t[3] else term.isin(vals)
+        return orig(t)
+    tf.build = build_with_api_forms
     try:
         return str(b.query(spec)), b.trace
     except Exception as e:  # noqa
         return "!" + type(e).__name__ + ": " + str(e)[:200], b.trace
+    finally:
+        tf.build = orig
